@@ -52,6 +52,11 @@ def split_top(s, sep=","):
         elif c == '"':
             instr = True
             cur.append(c)
+        elif c == "'" and i + 2 < len(s) and (s[i + 2] == "'" or (s[i + 1] == "\\" and "'" in s[i + 2:i + 8])):
+            # char literal (`'{'`, `'\n'`, `'\u{7f}'`): copied verbatim - not a lifetime, not a bracket
+            j = i + 2 if s[i + 2] == "'" else s.index("'", i + 2)
+            cur.append(s[i:j + 1])
+            i = j
         elif c in "([{":
             depth += 1
             cur.append(c)
